@@ -331,6 +331,32 @@ def jal : P String := do
   let v := v.failIf (A.length == 1 && !(visited.all (fun s => isq.getD s [] == iq.getD s []))) s!"{comp} single_agent_q_differs_from_joint"
   return v.render
 
+def coopEvent : P (List Nat × List Nat × List Nat × List Nat × List Rat) := do
+  let s ← P.nats; let a ← P.nats; let s1 ← P.nats; let a1 ← P.nats; let rew ← P.qs
+  pure (s, a, s1, a1, rew)
+
+def closeFM (m i : FM) : Bool :=
+  m.length == i.length && (m.zip i).all (fun (a, b) => a.tag == b.tag && a.atag == b.atag && a.vals.length == b.vals.length &&
+    (a.vals.zip b.vals).all (fun (x, y) => x.length == y.length && (x.zip y).all (fun (p, q) => closeQ (1 / 1000000000) p q)))
+
+/-- `coopq S A parents domains alpha gamma hist | initialFM finalFM` : CooperativeQLearning with any bases, replayed by the
+    model (the greedy a1 of every step is the implementation's).  While the constructor leaves the normaliser
+    uninitialised (AITB.Gen.C14.coopNormZeroed = false, finding C14-3) the final values are not comparable. -/
+def coopq : P String := do
+  let S ← P.nats; let A ← P.nats; let ps ← P.list parentSet; let doms ← P.natss; let alpha ← P.q; let gamma ← P.q
+  let hist ← P.list coopEvent; P.bar
+  let i0 ← fm; let i1 ← fm; P.eof
+  let g : DDNGraph := { S := S, A := A, parents := ps }
+  let q0 := coopInit g doms
+  let v : Verdict := { tag := "coopq" }
+  let v := v.diffIf (q0 != i0) s!"makeQFunction model≠impl"
+  if !AITB.Gen.C14.coopNormZeroed then
+    return (if v.diffs.isEmpty then "skip uninitialised_normaliser_open" else v.render)
+  else
+    let qf := coopRun S A alpha gamma (coopNorm A.length q0) q0 hist
+    let v := v.diffIf (!closeFM qf i1) s!"CooperativeQLearning::stepUpdateQ model≠impl"
+    return v.render
+
 /-- `eq <component> <kind> exact|close | a | b` : two implementations that must coincide (flat vs single-factor) -/
 def eqv : P String := do
   let comp ← P.tok; let kind ← P.tok; let mode ← P.tok; P.bar
@@ -364,6 +390,7 @@ def handle (toks : List String) : Option String :=
   | "ddn" :: rest => P.run ddn rest
   | "ddnrows" :: rest => P.run ddnrows rest
   | "jal" :: rest => P.run jal rest
+  | "coopq" :: rest => P.run coopq rest
   | "eq" :: rest => P.run eqv rest
   | "probe" :: rest => P.run probe rest
   | _ => none
